@@ -85,11 +85,11 @@ def source(src, da):
     if k == "from_array":
         return _arr(src["array"], da)
     lib = np if da is None else da
-    kw = {} if da is None else {"chunks": tuple(tuple(c) for c in src["chunks"])}
-    if k in ("ones", "zeros"):
+    if k in ("ones", "zeros", "full"):
+        kw = {} if da is None else {"chunks": tuple(tuple(c) for c in src["chunks"])}
+        if k == "full":
+            return lib.full(tuple(src["shape"]), src["value"], dtype=src["dtype"], **kw)
         return getattr(lib, k)(tuple(src["shape"]), dtype=src["dtype"], **kw)
-    if k == "full":
-        return lib.full(tuple(src["shape"]), src["value"], dtype=src["dtype"], **kw)
     kw = {} if da is None else {"chunks": src["chunksize"]}
     if k == "arange":
         return lib.arange(src["start"], src["stop"], src["step"], dtype=src["dtype"], **kw)
@@ -183,8 +183,13 @@ def _err(e, stage, step=None):
         if "/dask/" in fr.filename:
             where = f"{fr.filename.split('/dask/', 1)[1]}:{fr.name}"
             break
-    kind = "notimpl" if isinstance(e, NotImplementedError) else "error"
-    return {kind: {"stage": stage, "type": type(e).__name__, "msg": str(e)[:300], "where": where, "step": step}}
+    # A NotImplementedError raised WHILE HANDLING another exception (blanket ``except Exception: raise NotImplementedError``)
+    # is a crash that was relabelled, not a statement that the operation is unsupported: reported as an error, with the
+    # type of the swallowed exception.  A plain NotImplementedError means "outside the engine's domain".
+    masked = type(e.__context__).__name__ if isinstance(e, NotImplementedError) and e.__context__ is not None else None
+    kind = "notimpl" if isinstance(e, NotImplementedError) and masked is None else "error"
+    msg = str(e)[:300] if masked is None else f"(masking {masked}: {str(e.__context__)[:200]})"
+    return {kind: {"stage": stage, "type": type(e).__name__, "msg": msg, "where": where, "step": step, "masked": masked}}
 
 
 def answer(spec):
